@@ -15,6 +15,7 @@ def parseAct : List String → Option Act
   | ["delc", url] => some (.setCustom url.toList none)
   | ["govdep", pid, amt] => do some (.govDeposit (← nat? pid) (← nat? amt))
   | ["govsub", initial, exp] => do some (.govSubmit (← nat? initial) (← bool? exp))
+  | ["govspend", amt, to] => do some (.govSpend (← nat? amt) (← nat? to))
   | _ => none
 
 def parseMsg (w : String) : Option Msg :=
